@@ -611,7 +611,22 @@ def run(ctx, anchors=None):
                     verdicts.append((None, dt, lt))
                     continue
                 arr = arrs[0][0]
-                N = [N_ for (nm, N_, sz) in arrays.values() if nm == arr[1]][0]
+                # several arrays of a function may share a name (block scopes): the one visible at the call is the one whose
+                # declaring block encloses the call, innermost first
+                cands_ = []
+                for dn_ in f.nodes():
+                    if dn_["k"] == "decl" and any(d_["d"] in arrays and arrays[d_["d"]][0] == arr[1] for d_ in dn_["decls"]):
+                        scope_ = None
+                        for a_ in f.ancestors(dn_):
+                            if a_.get("k") in ("compound", "block"):
+                                scope_ = a_
+                                break
+                        if scope_ is None or S.contains(scope_, n):
+                            depth_ = len(list(f.ancestors(dn_)))
+                            for d_ in dn_["decls"]:
+                                if d_["d"] in arrays and arrays[d_["d"]][0] == arr[1]:
+                                    cands_.append((depth_, arrays[d_["d"]][1]))
+                N = max(cands_)[1] if cands_ else [N_ for (nm, N_, sz) in arrays.values() if nm == arr[1]][0]
                 tot = _sx.lin_add(lt, _sx.lin_add(dt, arr, -1))
                 verdicts.append((N is not None and _sx.is_const(tot) and tot[1] <= N, dt, lt, arr[1], N, tot))
             if any(v[0] is None for v in verdicts):
@@ -1487,8 +1502,8 @@ MUTANTS = [
     dict(name="new-recursion-unreviewed", file="instance.cpp", find="bool Instance::rewind() {\n    if (env->pc == env->script.begin()) {\n        return false;\n    }", replace="bool Instance::rewind() {\n    if (env->pc == env->script.begin()) {\n        return false;\n    }\n    if (env->done && env->curr_op_seq > 100000) return rewind();", expect=["R15.13:cycle=Instance::rewind"]),
     dict(name="addrprefix-unchecked", file="tap.cpp", find="ToLower(ca.m['p'])", replace="ca.m['p']", expect=["R15.7:char-precond=Encode(bech32_hrp)"]),
     dict(name="default-prefix-upper-case", file="value.cpp", find='std::string bech32_hrp = "bcrt";', replace='std::string bech32_hrp = "BCRT";', expect=["R15.7:char-precond=Encode(bech32_hrp)"]),
-    dict(name="listing-limit-grows-with-offset", file="btcdeb.cpp", find="snprintf(pbuf, 1024 - (pbuf - buf), \"%s\", GetOpName", replace="snprintf(pbuf, 1024 + pbuf - buf, \"%s\", GetOpName", expect=["R15.4:bounded-write:snprintf@main"]),
-    dict(name="listing-limit-ignores-offset", file="btcdeb.cpp", find="snprintf(pbuf, 1024 - (pbuf - buf), \"%s\", HexStr", replace="snprintf(pbuf, 1024, \"%s\", HexStr", expect=["R15.4:bounded-write:snprintf@main"]),
+    dict(name="listing-limit-grows-with-offset", file="btcdeb.cpp", find="snprintf(pbuf, sizeof(buf) - (pbuf - buf), \"%s\", GetOpName", replace="snprintf(pbuf, sizeof(buf) + pbuf - buf, \"%s\", GetOpName", expect=["R15.4:bounded-write:snprintf@main"]),
+    dict(name="listing-limit-ignores-offset", file="btcdeb.cpp", find="snprintf(pbuf, sizeof(buf) - (pbuf - buf), \"%s\", HexStr", replace="snprintf(pbuf, sizeof(buf), \"%s\", HexStr", expect=["R15.4:bounded-write:snprintf@main"]),
     dict(name="format-buffer-too-small", file="functions.cpp", find="    snprintf(lfmt, 15, ", replace="    snprintf(lfmt, 16, ", expect=["R15.4:bounded-write:snprintf@print_dualstack"]),
     dict(name="eval-number-buffer-off-by-one", file="instance.cpp", find="            snprintf(buf, vlen + 1, \"%d\", n);", replace="            snprintf(buf, vlen + 2, \"%d\", n);", expect=["R15.4:bounded-write:snprintf@Instance::eval"]),
     dict(name="empty-transaction-accepted", file="instance.cpp", find="    if (tx->vin.empty()) {\n        fprintf(stderr, \"error: the transaction has no inputs\\n\");\n        return false;\n    }\n", replace="", expect=["R15.3:transaction-has-an-input"]),
